@@ -6,7 +6,6 @@ package main
 
 import (
 	"bytes"
-	"compress/gzip"
 	"fmt"
 	"os"
 	"regexp"
@@ -30,6 +29,7 @@ type pipeInput struct {
 	Data []byte // the plain content (what the lines are); a gzip input's file holds the compressed form
 	Plan *simrt.ReadPlan
 	Gz   bool
+	GzAt []int // member boundaries of a multi-member gzip file (nil: one member)
 }
 
 type pipeScenario struct {
@@ -62,7 +62,7 @@ func (sc *pipeScenario) describe() map[string]any {
 			f = fmt.Sprintf(" read-error@%d", in.Plan.ErrAt)
 		}
 		if in.Gz {
-			f += " gzip"
+			f += fmt.Sprintf(" gzip(%d members)", len(in.GzAt)+1)
 		}
 		ins = append(ins, fmt.Sprintf("%s: %d bytes, %d lines%s", in.Name, len(in.Data), n, f))
 	}
@@ -201,6 +201,7 @@ func genPipeScenario(rc *RunCtx, allowStdin bool, maxLinesPerInput int) *pipeSce
 			if t.WBool(1, 2) {
 				sc.Inputs[i].Gz = true
 				sc.Inputs[i].Name += ".gz"
+				sc.Inputs[i].GzAt = gzCuts(t, len(sc.Inputs[i].Data))
 			}
 		}
 	}
@@ -304,11 +305,7 @@ func (sc *pipeScenario) writeInputs() {
 	for _, in := range sc.Inputs {
 		data := in.Data
 		if in.Gz {
-			var zb bytes.Buffer
-			zw := gzip.NewWriter(&zb)
-			zw.Write(in.Data)
-			zw.Close()
-			data = zb.Bytes()
+			data = gzMembers(in.Data, in.GzAt)
 		}
 		if err := os.WriteFile(in.Name, data, 0o644); err != nil {
 			panic(err)
